@@ -1,5 +1,5 @@
 """C06 — passes run in the documented order and compose (driver part: all tables)."""
-import random
+import random, re
 from .. import common, corpus, suite_translate as st
 
 THEOREMS = [
@@ -64,6 +64,120 @@ def oracle(k):
     return bad
 
 
+def layer_b(v, exe, rng, tier, dist):
+    from .. import gen_table as G
+    ntab = 150 if tier == "quick" else 5000
+    cases = []
+    for i in range(ntab):
+        t = G.gen_table(rng, "multipass", per_stage=(0, 3), literal_only=True, biased=(i % 2 == 0))
+        txt = t.text()
+        tn = "lb%d.ctb" % i
+        ops = ["DUMP %s" % tn]
+        # literals of the rules' tests, as characters and as cells (the main pass is one-to-one)
+        inv = {cell: ch for ch, cell in t.charcell.items()}
+        lit_c, lit_d = [], []
+        for r in t.rules:
+            if r.test is None:
+                continue
+            for mm in re.finditer(r'"([^"]*)"|@([0-9a-f-]+)', r.test + " " + r.action):
+                if mm.group(1) is not None:
+                    cs = [ord(x) for x in mm.group(1)]
+                    if all(x in t.charcell for x in cs):
+                        lit_c.append(cs); lit_d.append([t.charcell[x] for x in cs])
+                else:
+                    ds = [sum(1 << "123456789abcdef".index(d) for d in cell if d != "0") for cell in mm.group(2).split("-")]
+                    if all(d in inv for d in ds):
+                        lit_d.append(ds); lit_c.append([inv[d] for d in ds])
+
+        def mix(lits, rnd):
+            u = []
+            while len(u) < 10 and rng.random() < 0.85:
+                u += list(rng.choice(lits)) if (lits and rng.random() < 0.7) else rnd()
+            return u[:12]
+        for _ in range(6 if tier == "quick" else 10):
+            u = mix(lit_c, lambda: G.rand_text(rng, t, 2, undefined=0.03))
+            cap = rng.choice([len(u), len(u) + 1, 2 * len(u) + 2, 40, 3, 1])
+            ops.append("FWD %s 4 %d - 128 %s - -" % (tn, cap, common.wide(u)))
+            c = [0x8000 | d for d in mix(lit_d, lambda: [x & 0x7fff for x in G.rand_cells(rng, t, 2, undefined=0.03)])]
+            ops.append("BWD %s 4 %d - 128 %s - -" % (tn, cap, common.wide(c)))
+        cases.append(common.Case("c06-lb%d" % i, ["HOOK trace 1", "HOOK budget 200000", "TBL %s %s" % (tn, common.hexbytes(txt))], ops,
+                                 {"tn": tn, "text": txt}))
+    from .. import gen_features as GF
+    extra = []
+    for i, tname in enumerate((corpus.quick_tables()[:14]) if tier == "quick" else corpus.all_tables()):
+        extra.append(common.Case("c06-sk%d" % i, [], ["DUMP %s" % corpus.tpath(tname)], {"tn": "s-" + tname, "text": tname}))
+    for i in range(60 if tier == "quick" else 2000):
+        w = GF.gen(rng, want=None)
+        tn = "wk%d.ctb" % i
+        extra.append(common.Case("c06-wk%d" % i, ["TBL %s %s" % (tn, common.hexbytes(w.text))], ["DUMP %s" % tn], {"tn": tn, "text": w.text}))
+    common.run_cases(exe, cases + extra, batch=10, timeout=120)
+    cases = cases + extra
+    lines, tags = [], []
+    for c in cases:
+        if c.fault or not c.out or c.out[0].startswith("T null"):
+            continue
+        lines.append("LOADTABLE %s %s" % (c.meta["tn"], c.out[0].rsplit(" e=", 1)[0])); tags.append(None)
+        lines.append("MPASSCHK %s" % c.meta["tn"]); tags.append(("chk", c))
+        for op, o in zip(c.ops[1:], c.out[1:]):
+            R = common.parse_R(o)
+            if R is None:
+                continue
+            for pr in R["passes"]:
+                if pr["pass"] == 1:
+                    continue
+                lines.append("MPASS %s %s %d %d %s" % (c.meta["tn"], "b" if pr["dir"] else "f", pr["pass"], pr["max"], common.wide(pr["in"])))
+                tags.append((c, op, pr))
+    out = common.run_model(lines, timeout=900) if lines else []
+    bad = []
+    n = {"stages_compared": 0, "unsupported": 0, "rule_applied": 0, "truncated": 0}
+    for tg, m in zip(tags, out):
+        if tg is None:
+            continue
+        if tg[0] == "chk":
+            n["tables_key_checked"] = n.get("tables_key_checked", 0) + 1
+            if m != "PK ok":
+                for what in m.split(" ")[1:]:
+                    w2 = what.split(":")
+                    v.violation("C06:passkey:%s" % (w2[0] + ("" if w2[1].isdigit() else ":" + w2[1])),
+                                "pass rules of a compiled table are not filed as documented (%s): a rule's key is not the literal "
+                                "its test starts with at the position it is tried, a rule sits in the chain of another stage, or a "
+                                "chain is not ordered by decreasing key length then definition" % what,
+                                {"script": tg[1].setup + [tg[1].ops[0]], "table_text": tg[1].meta.get("text", "")[:2000], "finding": m[:400]})
+            continue
+        c, op, pr = tg
+        if m.startswith("UNSUPPORTED"):
+            n["unsupported"] += 1
+            continue
+        n["stages_compared"] += 1
+        v.cov["evaluations"] += 1
+        if pr["dir"]:
+            mp = ",".join(str(x) for x in pr["map"]) or "."
+        else:
+            mp = ",".join(str(x) for x in pr["map"]) or "."
+        exp = "P %s %s %d" % (common.wide(pr["out"]), mp, pr["realInlen"])
+        got = m.rsplit(" rules=", 1)[0]
+        if m.rsplit(" rules=", 1)[-1] not in ("", "."):
+            n["rule_applied"] += 1
+            v._distinct.add(("lb", c.id, pr["dir"], pr["pass"], tuple(pr["in"]), pr["max"]))
+        if pr["realInlen"] < len(pr["in"]):
+            n["truncated"] += 1
+        if pr["dir"]:
+            # backward: H4 records the map for the consumed positions only; positions the stage never wrote are
+            # unspecified (the model prints '?')
+            g = got.split(" "); e = exp.split(" ")
+            gm = [] if g[2] == "." else g[2].split(",")
+            em = [] if e[2] == "." else e[2].split(",")
+            gm = gm[: len(em)]
+            em = [x if y != "?" else "?" for x, y in zip(em, gm)]
+            exp = " ".join([e[0], e[1], ",".join(em) or ".", e[3]])
+            got = " ".join([g[0], g[1], ",".join(gm) or ".", g[3]])
+        if exp != got:
+            bad.append("%s stage %d of %s (capacity %d, input %s)\n impl  %s\n model %s\n%s" % (
+                "backward" if pr["dir"] else "forward", pr["pass"], op[:80], pr["max"], common.wide(pr["in"]), exp[:300], m[:300], c.meta["text"][:500]))
+    dist["layerB"] = n
+    return bad
+
+
 def run(tier):
     v = common.Verdict("C06", tier)
     rng = random.Random(common.seed() * 1000003 + 6)
@@ -99,6 +213,13 @@ def run(tier):
                         {"script": k.case.setup + [k.op], "result": k.line[:3000]})
         if len(v.cov["samples"]) < 5 and len(k.R["passes"]) > 2:
             v.sample({"op": k.op[:200], "stages": [p["pass"] for p in k.R["passes"]], "ti": k.R.get("ti")})
+    # ---- Layer B: the stage scanners and the literal test/action interpreters (LouModel/Pass.lean) against every
+    #      recorded stage of real calls on generated tables (0-3 literal rules per stage and direction, brackets,
+    #      look-back, empty replacement, copy, rules that do not consume, shared prefixes) on a one-to-one main pass
+    lb = layer_b(v, exe, rng, tier, dist)
+    v.obligation("correspondence: the Lean stage model (rule selection along the pass chain, literal test and action "
+                 "interpreters, both directions) reproduces every recorded correct/pass2-4 stage on the dumped tables",
+                 not lb, "\n".join(lb[:3]))
     v.obligation("correspondence: Lean driver reproduces every recorded call (trace validation)", not trace_bad,
                  "; ".join("%s :: %s" % (k.op[:200], k.trace_detail[:600]) for k in trace_bad[:3]))
     v.cov["traces_validated_against_impl"] = sum(1 for k in calls if k.trace_ok is not None)
